@@ -354,6 +354,166 @@ def walk(e):
                 yield x
 
 
+# ---------------------------------------------------------------------------
+# transparent helpers: static functions that do not exist in the reference tree
+# (engine/baseline_functions.json) are spliced into their callers' CFGs, so that
+# "extract a helper" refactorings do not hide code from function-keyed rules.
+
+SYNTH_ID = 900000000
+_INLINE_OFF = 100000000
+
+
+def _load_baseline():
+    path = os.path.join(VERIF, 'engine', 'baseline_functions.json')
+    if os.environ.get('VERIF_NO_INLINE') or not os.path.exists(path):
+        return None
+    with open(path) as fh:
+        return json.load(fh)
+
+
+def _map_expr(e, fn):
+    """Deep copy of an expression tree with fn(node) -> replacement | None applied top-down."""
+    if isinstance(e, dict):
+        r = fn(e)
+        if r is not None:
+            return r
+        return {k: _map_expr(v, fn) for k, v in e.items()}
+    if isinstance(e, list):
+        return [_map_expr(v, fn) for v in e]
+    return e
+
+
+def _simple_arg(a):
+    k = a.get('k')
+    if k in ('int', 'str'):
+        return True
+    if k == 'ref':
+        return True
+    if k == 'un' and a.get('op') == '&':
+        return _simple_arg(a['e'])
+    if k == 'member':
+        return _simple_arg(a['base'])
+    if k in ('cast', 'paren') and isinstance(a.get('e'), dict):
+        return _simple_arg(a['e'])
+    return False
+
+
+def _event_exprs(ev):
+    if ev['ev'] == 'decl':
+        return [ev.get('init')] if ev.get('init') is not None else []
+    return [ev['e']] if isinstance(ev.get('e'), dict) else []
+
+
+def _inline_site(f, bid, idx, g, n):
+    """Splice g's CFG into f at the call event f.blocks[bid].events[idx]."""
+    import copy
+    blk = f.blocks[bid]
+    c = blk['events'][idx]['e']
+    cid = c['id']
+    off = n * _INLINE_OFF
+    written = set()
+    for b in g.blocks.values():
+        for ev in b['events']:
+            if ev['ev'] == 'assign' and ev['e']['l'].get('k') == 'ref':
+                written.add(ev['e']['l'].get('id'))
+            elif ev['ev'] == 'incdec' and ev['e']['e'].get('k') == 'ref':
+                written.add(ev['e']['e'].get('id'))
+            for top in _event_exprs(ev):
+                for x in walk(top):
+                    if x.get('k') == 'un' and x.get('op') == '&' and isinstance(x.get('e'), dict) \
+                            and x['e'].get('k') == 'ref':
+                        written.add(x['e'].get('id'))
+        t = b.get('term')
+        if t and t.get('cond') is not None:
+            for x in walk(t['cond']):
+                if x.get('k') == 'un' and x.get('op') == '&' and isinstance(x.get('e'), dict) \
+                        and x['e'].get('k') == 'ref':
+                    written.add(x['e'].get('id'))
+    subst = {}
+    pre = []
+    for prm, a in zip(g.params, c['args']):
+        if prm['id'] not in written and _simple_arg(a):
+            subst[prm['id']] = a
+        else:
+            pre.append({'ev': 'decl', 'line': c['line'], 'init': copy.deepcopy(a),
+                        'var': {'id': prm['id'] + off, 'k': 'ref', 'kind': 'local', 'name': prm['name'],
+                                't': prm['t']}})
+    retvar = None
+    if g.ret != 'void':
+        retvar = {'k': 'ref', 'kind': 'local', 'id': SYNTH_ID + n, 'name': '$ret_' + g.name, 't': g.ret}
+
+    def m(node):
+        k = node.get('k')
+        if k == 'ref' and node.get('kind') in ('local', 'param') and 'id' in node:
+            if node['id'] in subst:
+                return copy.deepcopy(subst[node['id']])
+            nn = dict(node)
+            nn['id'] = node['id'] + off
+            return nn
+        if k == 'call' and off:
+            nn = {kk: _map_expr(v, m) for kk, v in node.items()}
+            nn['id'] = node['id'] + off
+            return nn
+        return None
+    base = max(f.blocks) + 1
+    cont = base + max(g.blocks) + 1
+
+    def nb(b):
+        return cont if b == g.exit else base + b
+    for gb in g.blocks.values():
+        if gb['id'] == g.exit:
+            continue
+        evs = []
+        for ev in gb['events']:
+            if ev['ev'] == 'return':
+                if ev.get('e') is not None and retvar is not None:
+                    evs.append({'ev': 'assign', 'line': ev['line'], 'inlined_return': g.name,
+                                'e': {'k': 'assign', 'op': '=', 'l': dict(retvar), 'r': _map_expr(ev['e'], m)}})
+                continue
+            ne = {kk: (_map_expr(v, m) if kk in ('e', 'init') else v) for kk, v in ev.items()}
+            if ev['ev'] == 'decl':
+                v = dict(ev['var'])
+                v['id'] = v['id'] + off
+                ne['var'] = v
+            ne['inlined_from'] = g.name
+            evs.append(ne)
+        nblk = {'id': base + gb['id'], 'events': evs, 'succs': [nb(x) if x >= 0 else x for x in gb['succs']]}
+        if gb.get('term'):
+            t = dict(gb['term'])
+            if t.get('cond') is not None:
+                t['cond'] = _map_expr(t['cond'], m)
+            nblk['term'] = t
+        if gb.get('noreturn'):
+            nblk['noreturn'] = True
+            nblk['succs'] = []
+        f.blocks[nblk['id']] = nblk
+    cblk = {k: v for k, v in blk.items() if k not in ('id', 'events')}
+    cblk['id'] = cont
+    cblk['events'] = blk['events'][idx + 1:]
+    f.blocks[cont] = cblk
+    blk['events'] = blk['events'][:idx] + pre
+    blk['succs'] = [base + g.entry]
+    blk.pop('term', None)
+    blk.pop('noreturn', None)
+    # the value of the call expression is now the synthetic return variable
+
+    def r(node):
+        if node.get('k') == 'call' and node.get('id') == cid:
+            return dict(retvar) if retvar is not None else {'k': 'int', 'v': 0}
+        return None
+    for b in f.blocks.values():
+        if base <= b['id'] < cont:
+            continue
+        b['events'] = [{kk: (_map_expr(v, r) if kk in ('e', 'init') else v) for kk, v in ev.items()}
+                       for ev in b['events']]
+        t = b.get('term')
+        if t and t.get('cond') is not None:
+            t = dict(t)
+            t['cond'] = _map_expr(t['cond'], r)
+            b['term'] = t
+    f._preds = f._events = f._calls = None
+
+
 class Program:
     def __init__(self, unit_dicts, stats=None):
         self.stats = stats or {}
@@ -398,6 +558,77 @@ class Program:
         self._callers = None
         self._callees = None
         self._addr_taken = None
+        self.inlined = {}        # helper key -> [caller keys]
+        self._inline_unknown_helpers()
+
+    def _inline_unknown_helpers(self):
+        base = _load_baseline()
+        if base is None:
+            return
+        new = {k: f for k, f in self.funcs.items()
+               if f.static and f.blocks and f.file in base and f.name not in base[f.file] and not f.variadic}
+        if not new:
+            return
+        taken = set()
+        for f in self.funcs.values():
+            for b in f.blocks.values():
+                tops = [x for ev in b['events'] for x in _event_exprs(ev)]
+                if b.get('term') and b['term'].get('cond') is not None:
+                    tops.append(b['term']['cond'])
+                for top in tops:
+                    for x in walk(top):
+                        if x.get('k') == 'ref' and x.get('kind') == 'func':
+                            taken.add(x.get('name'))
+        for t in self.tables.values():
+            for x in walk(t):
+                if isinstance(x, dict) and x.get('k') == 'ref' and x.get('kind') == 'func':
+                    taken.add(x.get('name'))
+        new = {k: f for k, f in new.items() if f.name not in taken}
+
+        def target(f, c):
+            if c.get('callee') is None or not c.get('cstatic'):
+                return None
+            k = self.unit_static.get(f.unit, {}).get(c['callee'])
+            g = new.get(k)
+            if g is None or g is f or len(g.params) != len(c['args']):
+                return None
+            return g
+
+        def is_leaf(g):
+            return not any(target(g, c) is not None for b, i, c in g.calls())
+        n = 0
+        for rnd in range(6):
+            changed = False
+            for f in list(self.funcs.values()):
+                while True:
+                    site = None
+                    for b, i, c in f.calls():
+                        g = target(f, c)
+                        if g is not None and is_leaf(g):
+                            site = (b, i, g)
+                            break
+                    if site is None:
+                        break
+                    n += 1
+                    if n > 400:
+                        raise AnalysisBroken('too many helper call sites to inline')
+                    _inline_site(f, site[0], site[1], site[2], n)
+                    self.inlined.setdefault(site[2].key, []).append(f.key)
+                    changed = True
+            if not changed:
+                break
+        # helpers that were inlined everywhere disappear as functions of their own
+        for k in list(self.inlined):
+            g = self.funcs.get(k)
+            if g is None:
+                continue
+            still = any(target(f, c) is g for f in self.funcs.values() if f is not g for b, i, c in f.calls())
+            if not still:
+                del self.funcs[k]
+                self.by_name[g.name] = [x for x in self.by_name.get(g.name, []) if x is not g]
+                if not self.by_name[g.name]:
+                    del self.by_name[g.name]
+                self.unit_static.get(g.unit, {}).pop(g.name, None)
 
     # -- lookup -------------------------------------------------------------
     def fn(self, name, file=None):
